@@ -22,6 +22,12 @@ def plan(tier, seed):
     for (src, p) in (('sreadhb.c', 's'), ('sreadrb.c', 's')):
         for mode in (1, 2, 3):
             qs.append(rd_query('C20', mode, src, p))
+    # double-complex readers: values come in (real, imaginary) pairs
+    for src in ('zreadhb.c', 'zreadrb.c'):
+        q = rd_query('C20', 4, src, 'z')
+        q.defs['CPLX'] = None
+        q.name += '.cplx'
+        qs.append(q)
     return qs
 
 META = {
@@ -30,7 +36,7 @@ META = {
     'bounds': {'descriptors': '(nIw), (nEw.d), (kPnEw.d) with n<=40, w<=25, d<=16, k<=2, E/D/F and I in either case, 0..3 leading blanks, field of 16/20 characters',
                'vectors/values': 'n<=4 items, 1..3 per line, field width 2..5 (lines well under 80 columns), integer values 1..99, arbitrary numeric field text over the alphabet 0-9 . + - E e D d blank'},
     'outside': ['decimal->binary conversion (libc strtod)', 'the header lines read with fscanf and the triplet reader ?readmt (scanf on stdin): formatted input of libc is not encoded',
-                'complex readers (same helpers, two values per entry)', 'files longer than the bounds'],
+                'single-complex readers', 'files longer than the bounds'],
     'assumptions': ['dread*.c compiled with -Dstatic= so that the helper functions can be called'],
     'trusted_base': ['cbmc 6.11', 'reference atoi in harness/read_h.c', 'MiniSat'],
 }
